@@ -10,7 +10,7 @@ man = json.load(open(V + "/MANIFEST.json"))
 claimed = [c["property_id"] for c in man["checks"]]
 extra = [a[len("--also="):].split(",") for a in sys.argv if a.startswith("--also=")]
 ids = args or sorted(os.listdir(V + "/seeded"))
-ids = [i for i in ids if os.path.isdir(V + "/seeded/" + i)]
+ids = [i for i in ids if os.path.isfile(V + "/seeded/" + i + "/meta.json")]
 results = {}
 import shutil, tempfile
 _bk = tempfile.mkdtemp(prefix="evbk-")
